@@ -441,6 +441,11 @@ def run(facts, rep, tier, ctx):
     for w_ in (ws, wa):
         if w_.present():
             _c05.is_kind_rules(facts, _c05._P5(rep if not w_.asyncw else _Prefixed(rep, "A"), "R10.14"), w_, D10)
+    # R10.16 "a re-created directory is empty" also when what was removed is a file that shadowed a lower layer's directory: the
+    # entries of that directory were never visible, so no marker hides them — they must stay hidden by the shadowing rule (F36)
+    for w16 in (ws, World(facts, True)):
+        if w16.present():
+            c09.shadowing_rules(facts, rep if not w16.asyncw else _Prefixed(rep, "A"), w16, "R10.16/R09.12")
     # R10.15 nothing is created inside a removed directory: the overlay's "does the parent exist" is the marker-aware union lookup
     # (a probe of the layers themselves finds the lower copy the marker hides, and the create brings entries back below a path
     # that stays absent) — C09 R09.2
